@@ -142,4 +142,3 @@ func trunc(s string, n int) string {
 
 var _ = ssa.NewProgram
 
-func cmdReplay(args []string) int { fmt.Println("not implemented"); return 2 }
